@@ -32,6 +32,7 @@ func cmdVerify(args []string) int {
 	timeout := fs.Duration("timeout", 10*time.Second, "per-query timeout")
 	dump := fs.String("dump", "", "directory to dump failed queries into")
 	verbose := fs.Bool("v", false, "verbose")
+	only := fs.String("only", "", "only solve obligations whose name contains this substring")
 	fs.Parse(args)
 	v, err := Load(*repo, strings.Split(*pkgs, ","), nil)
 	if err != nil {
@@ -78,7 +79,18 @@ func cmdVerify(args []string) int {
 			results = append(results, r)
 		}
 	}
-	v.Discharge(results, 16)
+	if *only != "" {
+		for _, r := range results {
+			var keep []*Obligation
+			for _, o := range r.Obls {
+				if strings.Contains(o.Name, *only) {
+					keep = append(keep, o)
+				}
+			}
+			r.Obls = keep
+		}
+	}
+	v.Discharge(results, 8)
 	bad := 0
 	for _, r := range results {
 		if r.Err != "" {
